@@ -1,5 +1,7 @@
 package main
 
+import "strings"
+
 func init() {
 	register("C16", &PropDef{
 		Explain: "Structural conditions of 'upcaster registration can never create a cycle and upcasting always terminates': (R1) in register, the graph insertion is reachable only on paths on which each of the five rejecting tests (source empty, target empty, source equals target, nil function, reachability query true) was evaluated and took its accepting arm; every rejecting arm returns a non-nil error without touching the graph; an accepted registration inserts exactly once and returns nil (all paths of register enumerated); (R2) the reachability query and the insertion are in one write-locked region; (R3) outside register the graph is only deleted from or replaced by an empty map, so acyclicity is an invariant; (R4) the search is a guarded recursion over all successors (current==target ⇒ true, visited test-and-mark before recursing, every successor explored, true propagates, no early negative exit from the successor loop); (R5) termination certificate for apply's loop: the current type is inserted into a visited set every iteration and the type the upcaster returned is looked up in it before it becomes the current type, a hit leaving the loop — so the loop runs at most |types|+1 times whatever upcasters return. Not decided: that acceptance coincides with graph reachability for every registration sequence (needs the search's semantics, not only its shape).",
@@ -17,6 +19,22 @@ func init() {
 			checkUpMapWriters(c, p, R, "C16.R3")
 			checkCycleSearch(c, p, R, "C16.R4")
 			checkApply(c, p, R, "C16.R5", "C16.R5", map[string]bool{"R5": true})
+			// apply and the search must not re-acquire the registry lock they already hold:
+			// a nested RLock blocks behind a queued writer and never terminates
+			res := runLocksFull(p, []guardSpec{{R.UpRegT.Obj().Name(), R.UpMap, R.UpMu}}, map[string]bool{PkgBus: true}, false, nil)
+			un := R.UpRegT.Obj().Name() + "." + R.UpMap
+			n := lockObligations(c, res, "C16.R2", func(k string) bool { return strings.Contains(k, "/"+un+"/") })
+			c.Floor("C16.R2", "upcaster graph accesses under lock analysis", n, 8)
+			bad := false
+			for _, f := range res.Misc {
+				if strings.Contains(f.Construct, R.UpRegT.Obj().Name()+"."+R.UpMu) {
+					bad = true
+					c.Violate("C16.R5", "locking/"+f.Construct, p.Pos(f.Pos), f.Msg, f.Trace)
+				}
+			}
+			if !bad {
+				c.Discharge("C16.R5", "registry-lock/not-reacquired", "", "no path acquires the registry lock while already holding it")
+			}
 			c.Assume = append(c.Assume, "the set of registered type names is finite while apply holds the read lock")
 		},
 	})
@@ -36,6 +54,7 @@ func init() {
 			checkApply(c, p, R, "C17.R3", "C17.R3", map[string]bool{"R3": true})
 			checkApply(c, p, R, "C17.R4", "C17.R4", map[string]bool{"R4": true})
 			checkUpcastCallers(c, p, R, "C17.R2")
+			checkStoredEventsNotRewritten(c, p, "C17.R2")
 			checkRegisterTailInsert(c, p, R, "C17.R4")
 			checkTypedUpcastWrapper(c, p, R, "C17.R5")
 			c.Assume = append(c.Assume, "encoding/json round-trips the typed values (not decided)")
